@@ -43,10 +43,4 @@ theorem particleVol_eq (n vol : ℚ) : Gen.particleVol n vol = n / vol := by
   unfold Gen.particleVol
   ring
 
-theorem bins_are_arange : Gen.binsAreArange = true := by
-  rfl
-
-theorem counts_are_histogram : Gen.countsAreHistogram = true := by
-  rfl
-
 end G.C11Gen
